@@ -1412,8 +1412,18 @@ def with_stage(base, stage, tag, part):
             return stage(run, replay=replay) if replay.get('family') == tag else base(run, replay=replay)
         if os.environ.get('VERIF_STAGE') == tag:      # development aid: that stage alone
             return stage(run)
-        rc1 = base(run)
         epath = os.path.join(ROOT, 'evidence', '%s.json' % run.prop)
+        try:
+            rc1 = base(run)
+        except ToolTrouble as e1:
+            # the first stage is inconclusive (e.g. a violation that did not reproduce on re-execution): the other stage may
+            # still decide - a violation it confirms stands, anything else leaves the run inconclusive
+            log('  first stage inconclusive: %s; running the %s stage' % (str(e1)[:200], tag))
+            run.mc, run.notes = [], []
+            rc2 = stage(run)
+            if rc2 == 1:
+                return 1
+            raise e1
         ev1 = json.load(open(epath))
         run.mc = []
         notes, run.notes = run.notes, []
